@@ -77,9 +77,9 @@ def msgFaithful (kind : Nat) (env : Env) (attrs : List Attr) (m : CosmosMsg) : B
   m.kind = kind &&
   m.sender = lastVal kCosmosSender attrs &&
   m.seq = (lastVal kCosmosSenderSequence attrs).bind (parseBig false) &&
-  some m.receiver = ((lastVal kEthereumReceiver attrs).bind parseHexAddr).orElse (fun _ => some zeroAddr) &&
+  m.receiver = ((lastVal kEthereumReceiver attrs).bind parseHexAddr).getD zeroAddr &&
   m.amount = (lastVal kAmount attrs).bind parseSdkInt &&
-  (kind ≠ kLock || some m.symbol = ((lastVal kSymbol attrs).map (sifToEth env.table)).orElse (fun _ => some []))
+  (kind ≠ kLock || m.symbol = ((lastVal kSymbol attrs).map (sifToEth env.table)).getD [])
 
 /-- composition with the chain: what the relayer parsed out of the event the chain emitted for `msg`
     (sender sequence `seq`) is `msg`'s sender, that sequence, receiver, amount and symbol -/
